@@ -10,6 +10,8 @@ CONSTANTS
   Gen = FALSE
   LateFlag = FALSE
   NoRebind = FALSE
+  NoBreak = FALSE
+  NestedOnce = TRUE
   KeepScope = FALSE
   ExtractFirst = FALSE
 SPECIFICATION Spec
